@@ -11,6 +11,7 @@ the lock), any number of times.  The underlying lock is abstract (see Model/Cond
 mutual exclusion is assumed (C13 for PriorityLock, stdlib for asyncio.Lock), nothing else.
 -/
 import Asynkit.Lemmas.C14
+import Asynkit.Lemmas.C14Count
 import Asynkit.Model.PQ
 
 namespace Asynkit.C14
@@ -96,6 +97,49 @@ theorem notify_not_lost {s : State} (h : Reachable .pc s) :
     exact kind_run es _ _ hr
   exact (good_reachable h).pass x hx hk hw hne
 
+/-- **Conservation of notifications** (both classes).  In every reachable state
+
+  (futures set so far by `notify`/`notify_all`/`_notify(1)`, one per woken waiter)
+    = (waiters that returned from `wait()` normally)
+    + (waiters that left `wait()` by an exception after having been notified)
+    + (notified waiters still in flight: inside `wait()` with their future set),
+
+where "inside `wait()`" is exactly the ghost list `inwait` (`t ∈ inwait ↔ pc t ≠ idle`, no
+repetitions).  A notification is therefore never unaccounted for; for PriorityCondition each waiter
+of the second group executed `_notify(1)` (`notify_not_lost`) and dropped the notification only if
+nobody un-notified was queued (`notification_dropped_only_if_nobody_waits`). -/
+theorem notification_conservation {k : Kind} {s : State} (h : Reachable k s) :
+    s.issued = nReturned s.exits + nRaisedNotified s.exits + countDone s.w s.inwait
+    ∧ (∀ t, t ∈ s.inwait ↔ (s.w t).pc ≠ .idle) ∧ s.inwait.Nodup := by
+  have c := cinv_reachable h
+  refine ⟨?_, c.mem, c.nodup⟩
+  rw [c.count, nExitedNotified_split s.exits c.retn]
+
+/-- a normal return from `wait()` always consumed a notification -/
+theorem return_consumes_notification {k : Kind} {s : State} (h : Reachable k s) :
+    ∀ x ∈ s.exits, x.wf = false → x.out = .ret → x.notified = true :=
+  (cinv_reachable h).retn
+
+/-- at quiescence (no notified waiter in flight) every notification issued has been consumed by a
+normal return or was taken by a waiter that left by exception — which, on PriorityCondition, passed
+it on unless nobody un-notified was waiting -/
+theorem quiescent_accounting {k : Kind} {s : State} (h : Reachable k s)
+    (hq : countDone s.w s.inwait = 0) :
+    s.issued = nReturned s.exits + nRaisedNotified s.exits := by
+  have := (notification_conservation h).1
+  omega
+
+/-- PriorityCondition: the hand-over of a raising waiter comes back empty only when no
+not-yet-notified waiter is queued — a notification is never stranded while one remains -/
+theorem notification_dropped_only_if_nobody_waits {s : State} (h : Reachable .pc s) :
+    ∀ x ∈ s.exits, x.wf = false → x.out ≠ .ret → x.handedTo = [] → x.pendingBefore = [] := by
+  intro x hx hw hne hh
+  have := (notify_not_lost h x hx hw hne).2
+  rw [hh] at this
+  cases hp : x.pendingBefore with
+  | nil => rfl
+  | cons a l => rw [hp] at this; simp at this
+
 /-- **The notify walk restores the queue** (model level): a `notify` changes nothing but futures —
 same queue, same waiter records up to `fut`. -/
 theorem cond_restore (s s' : State) (j n : Nat) (h : step s (.notify j n) = some s') :
@@ -130,6 +174,12 @@ example : (run (init .pc) demo).map (fun s =>
 example : (run (init .pc) demo).map (fun s =>
       (s.exits.map fun x => (x.pendingBefore, x.handedTo), decide ((s.w 1).fut = .done), s.queue))
     = some ([([1], [1])], true, [1]) := by decide
+
+/-- conservation on that history: 2 futures set (notify(1) woke waiter 0, its hand-over woke waiter 1)
+= 0 returned + 1 raised-after-notification + 1 notified and still in flight (waiter 1) -/
+example : (run (init .pc) demo).map (fun s =>
+      (s.issued, nReturned s.exits, nRaisedNotified s.exits, countDone s.w s.inwait, s.inwait))
+    = some (2, 0, 1, 1, [1]) := by decide
 
 /-- the same history on InterruptCondition: lock held, same exception, no hand-over -/
 example : (run (init .ic) demo).map (fun s =>
